@@ -103,7 +103,7 @@ theorem two_sided_spec_partial (cdf : Int → Rat) (dist : List Nat) (c : Nat)
     apply List.filter_congr
     intro d _
     have : (d + v ≥ c) ↔ (d ≥ c - v) := by omega
-    simp [this]
+    exact decide_eq_decide.2 this
   rw [exactP_differs]
   unfold pTwoSided pLess pGreater
   rcases Nat.lt_trichotomy u (c - u) with hlt | heq | hgt
@@ -185,5 +185,214 @@ theorem two_sided_spec_partial (cdf : Int → Rat) (dist : List Nat) (c : Nat)
       rw [this]
       exact_mod_cast h2
     rw [ratMin_right h1', ratMin_one_of_le h2', mul_comm]
+
+/-! ### goal 2: the untied CDF of the model is the distribution function of the enumeration -/
+
+theorem countP_or_disjoint {β : Type} (p q r : β → Bool) (l : List β)
+    (hr : ∀ x, r x = (p x || q x)) (hd : ∀ x, p x = true → q x = true → False) :
+    l.countP r = l.countP p + l.countP q := by
+  induction l with
+  | nil => simp
+  | cons a l ih =>
+    simp only [List.countP_cons, ih, hr a]
+    cases hp : p a <;> cases hq : q a <;> simp <;> first | omega | exact (hd a hp hq).elim
+
+/-- the number of values among `0, 2, …, 2(K−1)` -/
+theorem sum_countP_even (l : List Nat) (K : Nat) :
+    ∑ w ∈ Finset.range K, l.countP (fun (x : Nat) => decide ((x : Int) = 2 * ((w : Nat) : Int)))
+      = l.countP (fun d => decide (d % 2 = 0 ∧ d < 2 * K)) := by
+  induction K with
+  | zero =>
+    simp
+  | succ K ih =>
+    rw [Finset.sum_range_succ, ih]
+    symm
+    apply countP_or_disjoint
+    · intro x
+      by_cases h1 : x % 2 = 0 ∧ x < 2 * K
+      · have : x % 2 = 0 ∧ x < 2 * (K + 1) := ⟨h1.1, by omega⟩
+        simp [h1, this]
+      · by_cases h2 : (x : Int) = 2 * ((K : Nat) : Int)
+        · have : x % 2 = 0 ∧ x < 2 * (K + 1) := by omega
+          simp [h2, this]
+        · have : ¬ (x % 2 = 0 ∧ x < 2 * (K + 1)) := by omega
+          simp [h1, h2, this]
+    · intro x hx hy
+      simp only [decide_eq_true_eq] at hx hy
+      omega
+
+section UntiedDist
+variable {α : Type} [LinearOrder α]
+
+theorem nullDistOf_length (n m : Nat) (pool : List α) (hlen : pool.length = n + m) :
+    (nullDistOf n pool).length = Nat.choose (n + m) n := by
+  unfold nullDistOf
+  rw [List.length_map, splits_length, hlen]
+
+theorem nullDistOf_ne_nil (n m : Nat) (pool : List α) (hlen : pool.length = n + m) :
+    nullDistOf n pool ≠ [] := by
+  intro h
+  have := nullDistOf_length n m pool hlen
+  rw [h] at this
+  exact Nat.choose_ne_zero (Nat.le_add_right n m) this.symm
+
+/-- prefix sums of the recurrence, multiplied by the number of assignments, count the even
+    values below a bound -/
+theorem pRec_prefix_count (n m : Nat) (pool : List α) (hlen : pool.length = n + m)
+    (hdesc : pool.Pairwise (· > ·)) (K : Nat) :
+    (∑ w ∈ Finset.range K, pRec n m (w : Int)) * (Nat.choose (n + m) n : Rat)
+      = (((nullDistOf n pool).countP (fun d => decide (d % 2 = 0 ∧ d < 2 * K)) : Nat) : Rat) := by
+  rw [← sum_countP_even, Finset.sum_mul, Nat.cast_sum]
+  apply Finset.sum_congr rfl
+  intro w _
+  rw [pRec_mul_choose_eq_cntSpec pool n m hlen hdesc]
+  rfl
+
+/-- for a pool of pairwise distinct values every value of the doubled statistic is even and at
+    most `2·n·m` -/
+theorem nullDistOf_even_le (n m : Nat) (pool : List α) (hlen : pool.length = n + m)
+    (hdesc : pool.Pairwise (· > ·)) :
+    ∀ d ∈ nullDistOf n pool, d % 2 = 0 ∧ d ≤ 2 * (n * m) := by
+  have h := pRec_prefix_count n m pool hlen hdesc (n * m + 1)
+  rw [pmf_sums_to_one_untied, one_mul] at h
+  have h' : (nullDistOf n pool).countP (fun d => decide (d % 2 = 0 ∧ d < 2 * (n * m + 1)))
+      = (nullDistOf n pool).length := by
+    rw [nullDistOf_length n m pool hlen]
+    exact_mod_cast h.symm
+  rw [List.countP_eq_length] at h'
+  intro d hd
+  have := h' d hd
+  simp only [decide_eq_true_eq] at this
+  omega
+
+theorem untied_cdf_is_cdf (n m : Nat) (T : List Nat) (hT : Stats.UDist.hasTies T = false)
+    (pool : List α) (hlen : pool.length = n + m) (hdesc : pool.Pairwise (· > ·)) :
+    IsCDFOf (Stats.UDist.cdfPure n m T) (Spec.UExact.nullDistOf n pool) := by
+  intro v
+  have hev := nullDistOf_even_le n m pool hlen hdesc
+  have hL := nullDistOf_length n m pool hlen
+  have hC : ((Nat.choose (n + m) n : Nat) : Rat) ≠ 0 := choose_cast_ne_zero n m
+  rw [hL]
+  by_cases h0 : v < 0
+  · have e : (nullDistOf n pool).filter (fun (d : Nat) => decide ((d : Int) ≤ v)) = [] := by
+      rw [List.filter_eq_nil_iff]
+      intro d _
+      have : ¬ ((d : Int) ≤ v) := by omega
+      simpa using this
+    rw [e]
+    unfold cdfPure cdfWith
+    rw [if_pos h0]
+    simp
+  · by_cases h1 : v ≥ 2 * ((n * m : Nat) : Int)
+    · have e : (nullDistOf n pool).filter (fun (d : Nat) => decide ((d : Int) ≤ v))
+          = nullDistOf n pool := by
+        rw [List.filter_eq_self]
+        intro d hd
+        have := (hev d hd).2
+        have : (d : Int) ≤ v := by push_cast at h1; omega
+        simpa using this
+      rw [e, hL]
+      unfold cdfPure cdfWith
+      rw [if_neg h0, if_pos h1, div_self hC]
+    · rw [cdfPure_untied_pRec n m T hT v (by omega) (by omega), eq_div_iff hC,
+        pRec_prefix_count n m pool hlen hdesc, ← List.countP_eq_length_filter]
+      congr 1
+      apply List.countP_congr
+      intro d hd
+      have := (hev d hd).1
+      simp only [decide_eq_true_eq]
+      omega
+
+/-! ### goal 3: end-to-end statements for untied samples -/
+
+/-- the number of values `≤ v` through the recurrence -/
+theorem nullDistOf_count_le (n m : Nat) (pool : List α) (hlen : pool.length = n + m)
+    (hdesc : pool.Pairwise (· > ·)) (v : Nat) :
+    ((((nullDistOf n pool).filter (· ≤ v)).length : Nat) : Rat)
+      = (∑ w ∈ Finset.range (v / 2 + 1), pRec n m (w : Int)) * (Nat.choose (n + m) n : Rat) := by
+  rw [pRec_prefix_count n m pool hlen hdesc, ← List.countP_eq_length_filter]
+  congr 1
+  apply List.countP_congr
+  intro d hd
+  have := (nullDistOf_even_le n m pool hlen hdesc d hd).1
+  simp only [decide_eq_true_eq]
+  omega
+
+/-- the untied null distribution is symmetric about `n·m` (doubled: under `d ↦ 2·n·m − d`) -/
+theorem nullDistOf_symmetric (n m : Nat) (pool : List α) (hlen : pool.length = n + m)
+    (hdesc : pool.Pairwise (· > ·)) (v : Nat) :
+    ((nullDistOf n pool).filter (· ≤ v)).length
+      = ((nullDistOf n pool).filter (fun d => decide (d + v ≥ 2 * (n * m)))).length := by
+  have hev := nullDistOf_even_le n m pool hlen hdesc
+  by_cases hv : 2 * (n * m) ≤ v
+  · have e1 : (nullDistOf n pool).filter (· ≤ v) = nullDistOf n pool := by
+      rw [List.filter_eq_self]
+      intro d hd
+      have := (hev d hd).2
+      simp only [decide_eq_true_eq]
+      omega
+    have e2 : (nullDistOf n pool).filter (fun d => decide (d + v ≥ 2 * (n * m)))
+        = nullDistOf n pool := by
+      rw [List.filter_eq_self]
+      intro d _
+      simp only [decide_eq_true_eq]
+      omega
+    rw [e1, e2]
+  · have hsplit := List.length_eq_length_filter_add (l := nullDistOf n pool)
+      (fun d => decide (d + v ≥ 2 * (n * m)))
+    have hcongr : (nullDistOf n pool).filter (fun d => !decide (d + v ≥ 2 * (n * m)))
+        = (nullDistOf n pool).filter (· ≤ 2 * (n * m) - 1 - v) := by
+      apply List.filter_congr
+      intro d _
+      by_cases hd : d + v ≥ 2 * (n * m)
+      · have : ¬ d ≤ 2 * (n * m) - 1 - v := by omega
+        simp [hd, this]
+      · have : d ≤ 2 * (n * m) - 1 - v := by omega
+        simp [hd, this]
+    rw [hcongr] at hsplit
+    have hsum : ((nullDistOf n pool).filter (· ≤ v)).length
+        + ((nullDistOf n pool).filter (· ≤ 2 * (n * m) - 1 - v)).length
+        = (nullDistOf n pool).length := by
+      have hC : ((Nat.choose (n + m) n : Nat) : Rat) ≠ 0 := choose_cast_ne_zero n m
+      have a := nullDistOf_count_le n m pool hlen hdesc v
+      have b := nullDistOf_count_le n m pool hlen hdesc (2 * (n * m) - 1 - v)
+      have hk : (2 * (n * m) - 1 - v) / 2 + 1 = n * m - v / 2 - 1 + 1 := by omega
+      rw [hk] at b
+      have hflip := pRec_prefix_flip n m (v / 2) (by omega)
+      have : ((((nullDistOf n pool).filter (· ≤ v)).length
+          + ((nullDistOf n pool).filter (· ≤ 2 * (n * m) - 1 - v)).length : Nat) : Rat)
+          = (((nullDistOf n pool).length : Nat) : Rat) := by
+        rw [nullDistOf_length n m pool hlen]
+        push_cast
+        rw [a, b, ← hflip]
+        ring
+      exact_mod_cast this
+    omega
+
+theorem less_exact_untied (n m : Nat) (T : List Nat) (hT : Stats.UDist.hasTies T = false)
+    (pool : List α) (hlen : pool.length = n + m) (hdesc : pool.Pairwise (· > ·))
+    (u : Nat) (tu2 : Int) :
+    Stats.UStat.exactP (Stats.UDist.cdfPure n m T) .less (u : Int) tu2
+      = Spec.UExact.pLess (Spec.UExact.nullDistOf n pool) u :=
+  less_spec _ _ (untied_cdf_is_cdf n m T hT pool hlen hdesc) u tu2
+
+theorem greater_exact_untied (n m : Nat) (T : List Nat) (hT : Stats.UDist.hasTies T = false)
+    (pool : List α) (hlen : pool.length = n + m) (hdesc : pool.Pairwise (· > ·))
+    (u : Nat) (tu2 : Int) :
+    Stats.UStat.exactP (Stats.UDist.cdfPure n m T) .greater (u : Int) tu2
+      = Spec.UExact.pGreater (Spec.UExact.nullDistOf n pool) u :=
+  greater_spec _ _ (untied_cdf_is_cdf n m T hT pool hlen hdesc)
+    (nullDistOf_ne_nil n m pool hlen) u tu2
+
+theorem two_sided_exact_untied (n m : Nat) (T : List Nat) (hT : Stats.UDist.hasTies T = false)
+    (pool : List α) (hlen : pool.length = n + m) (hdesc : pool.Pairwise (· > ·))
+    (u : Nat) (hu : u ≤ 2 * (n * m)) :
+    Stats.UStat.exactP (Stats.UDist.cdfPure n m T) .differs (u : Int)
+        (((2 * (n * m) : Nat) : Int) - (u : Int))
+      = Spec.UExact.pTwoSided (Spec.UExact.nullDistOf n pool) u :=
+  two_sided_spec_partial _ _ (2 * (n * m)) (untied_cdf_is_cdf n m T hT pool hlen hdesc)
+    (nullDistOf_ne_nil n m pool hlen) (nullDistOf_symmetric n m pool hlen hdesc) u hu
+
+end UntiedDist
 
 end C11
